@@ -303,8 +303,30 @@ def r5(run: Run, rt):
                 if isinstance(it, ast.Call) and isinstance(it.func, ast.Name) and it.func.id == 'enumerate':
                     start = it.args[1] if len(it.args) > 1 else next((k.value for k in it.keywords if k.arg == 'start'), None)
                     if start is not None and not (isinstance(start, ast.Constant) and start.value == 0):
-                        # a non-zero start is fine only if the returned position is the index itself; keep it simple: flag
-                        ok = False
+                        # a non-zero start k: every position derived from the index (index + c in a returned or stored value)
+                        # must satisfy k + c = 1 (positions are 1-based)
+                        tgt = lp.target
+                        iv = tgt.elts[0].id if isinstance(tgt, ast.Tuple) and isinstance(tgt.elts[0], ast.Name) else None
+                        if not (isinstance(start, ast.Constant) and isinstance(start.value, int)) or iv is None:
+                            ok = False
+                        else:
+                            k0 = start.value
+                            body_nodes = lp.body if isinstance(lp, ast.For) else []
+                            offs = set()
+                            for st_ in body_nodes:
+                                for v_ in ast.walk(st_):
+                                    val = v_.value if isinstance(v_, (ast.Return, ast.Assign, ast.Yield)) and getattr(v_, 'value', None) is not None else None
+                                    if val is None:
+                                        continue
+                                    for x in ast.walk(val):
+                                        if isinstance(x, ast.BinOp) and isinstance(x.op, (ast.Add, ast.Sub)) and isinstance(x.left, ast.Name) \
+                                                and x.left.id == iv and isinstance(x.right, ast.Constant) and isinstance(x.right.value, int):
+                                            offs.add(x.right.value if isinstance(x.op, ast.Add) else -x.right.value)
+                                    bare = [x for x in ast.walk(val) if isinstance(x, ast.Name) and x.id == iv]
+                                    inbin = [x.left for x in ast.walk(val) if isinstance(x, ast.BinOp) and isinstance(x.left, ast.Name) and x.left.id == iv]
+                                    if len(bare) > len(inbin):
+                                        offs.add(0)
+                            ok = ok and bool(offs) and all(k0 + c == 1 for c in offs)
                 run.check(ok, 'C14.R5', f'{name}[{cp.label}]/loop over {ast.unparse(inner)[:30]}', 'scan-not-over-original-area',
                           f'{name} scans `{ast.unparse(it)[:60]}` instead of the area parameter itself: the position it returns is '
                           f'counted in a different sequence', fact=f'iterates {param}', loc=cp.loc(it))
